@@ -17,6 +17,8 @@ LEVEL = 'exploration'
 BUDGET = {'quick': 40, 'thorough': 360}
 # deterministic sub-checks repeated in a `python -O` child (core.optimized_child)
 OPT_SUBS = ('eui64/errors', 'eui64/inverse-grid', 'hostport/grid', 'hostport/empty', 'urlsplit/examples')
+# documented call interface the generated calls rely on (vcheck/callstyle.py)
+INTERFACE = [('oslo_utils.netutils', ['parse_host_port', 'escape_ipv6', 'get_ipv6_addr_by_EUI64', 'get_mac_addr_by_ipv6', 'urlsplit'])]
 RULE = ('eui64: 48-bit MACs (0, all ones, every single bit, every single '
         'cleared bit, U/L patterns, random) x IPv6 prefixes (bare address '
         'with empty low half, /0../64 with and without host bits, compressed '
@@ -287,7 +289,10 @@ def _ipv4_spellings():
               '10.1', '10.16777215', '10', '0', '4294967295', '127.1',
               '0x7f.1', '0x7f.0x0.0x0.0x1', '0x7f000001', '0177.0.0.1',
               '010.1.1.1', '192.168.0.1', '1.1.1', '255.255.65535',
-              '0x10', '00', '0.0', '017700000001', '0xA.0xb.0XC.13']:
+              '0x10', '00', '0.0', '017700000001', '0xA.0xb.0XC.13',
+              # IPv4 networks: an IPv4 prefix in the proper sense
+              '1.2.3.0/24', '10.0.0.0/8', '0.0.0.0/0', '1.2.3.4/32',
+              '192.168.1.7/24', '10.0.0.0/255.0.0.0', '127.0.0.1/8']:
         out.append({'why': 'ipv4 prefix', 'prefix': s,
                     'mac': '00:16:3e:33:44:55'})
     return out
@@ -507,7 +512,11 @@ HOST_V6 = ['::1', '::', '2001:db8:85a3::8a2e:370:7334', 'fe80::1',
            '0000:0000:0000:0000:0000:0000:0000:0001',
            'abcd:ef01:2345:6789:abcd:ef01:192.168.254.254', '1:2:3:4:5:6:7::']
 SCOPES = ['eth0', '1', 'a', 'lo', 'br-ex.100', 'wlp2s0_1', 'abcdefghijklmno',
-          'ENS3', '15chars-exactly']
+          'ENS3', '15chars-exactly',
+          # numeric zone indices (Windows) and zones that read like
+          # percent-encodings, ports or brackets to a careless parser
+          '25', '250', '2', '12', '25eth0', '2F', '41', '0', '80', '3A80',
+          '5D', '5B', 'eth0.25']
 BOUNDARY_PORTS = [0, 1, 9, 10, 79, 80, 99, 100, 443, 999, 1000, 1023, 1024,
                   8080, 9999, 10000, 32767, 32768, 49151, 49152, 65534, 65535]
 DEFAULTS = [None, 0, 1234, 65535]
@@ -1065,7 +1074,8 @@ def tasks(tier, seed):
            Task('eui64/inverse-grid', eui64_inverse_grid),
            Task('hostport/grid', hostport_grid),
            Task('hostport/empty', hostport_empty),
-           Task('urlsplit/examples', url_examples)]
+           Task('urlsplit/examples', url_examples),
+           Task('preempt', preempt)]
     parts = 8
     for p in range(parts):
         out.append(Task('eui64/grid', eui64_grid, part=p, parts=parts))
@@ -1092,11 +1102,57 @@ def tasks(tier, seed):
     return out
 
 
+def preempt(col):
+    """Schedules (core.preempt_calls): the helpers against each other under
+    every single preemption inside netutils."""
+    import netaddr
+    from oslo_utils import netutils as n
+    sub = 'preempt'
+
+    def V(x):
+        return ('value', x)
+
+    def split():
+        u = n.urlsplit('http://u@h:8/p?a=1&a=2#f')
+        return (tuple(u), u.params(), u.params(collapse=False))
+
+    calls = [
+        ('parse_host_port([::1]:80)',
+         lambda: n.parse_host_port('[::1]:80'), V(('::1', 80))),
+        ('parse_host_port(host, 5)',
+         lambda: n.parse_host_port('host', 5), V(('host', 5))),
+        ('get_ipv6_addr_by_EUI64(2001:db8::/64, 00:16:3e:33:44:55)',
+         lambda: str(n.get_ipv6_addr_by_EUI64('2001:db8::/64',
+                                              '00:16:3e:33:44:55')),
+         V('2001:db8::216:3eff:fe33:4455')),
+        ('get_ipv6_addr_by_EUI64(1.2.3.0/24, mac)',
+         lambda: n.get_ipv6_addr_by_EUI64('1.2.3.0/24', '00:16:3e:33:44:55'),
+         ('raise', 'ValueError')),
+        ('parse_host_port(1.2.3.4:9)',
+         lambda: n.parse_host_port('1.2.3.4:9'), V(('1.2.3.4', 9))),
+        ('get_mac_addr_by_ipv6',
+         lambda: str(n.get_mac_addr_by_ipv6(netaddr.IPAddress(
+             '2001:db8::216:3eff:fe33:4455'))), V('00:16:3e:33:44:55')),
+        ('escape_ipv6(::1)', lambda: n.escape_ipv6('::1'), V('[::1]')),
+        ('urlsplit', split,
+         V((('http', 'u@h:8', '/p', 'a=1&a=2', 'f'), {'a': '2'},
+            {'a': ['1', '2']}))),
+        ('get_ipv6_addr_by_EUI64(fd00::/8, ff:ff:ff:ff:ff:ff)',
+         lambda: str(n.get_ipv6_addr_by_EUI64('fd00::/8',
+                                              'ff:ff:ff:ff:ff:ff')),
+         V('fd00::fdff:ffff:feff:ffff')),
+    ]
+    core.preempt_calls(col, sub, ['oslo_utils.netutils'], calls)
+    col.exhaustive.setdefault(sub, False)
+
+
 def replay(rec):
     case = rec['case']
     sub = rec.get('sub', 'replay')
     col = core.Collector()
     kind = case.get('kind')
+    if case.get('preempt_calls'):
+        return preempt(col)
     if kind == 'eui64':
         check_eui64(col, case, sub)
     elif kind == 'inverse':
